@@ -240,14 +240,16 @@ def make(kind, n, strict):
     from fsic.core import VectorContainer
     # years, or a window around zero (0 is a label like any other, and not at either end of the span)
     span = list(range(2000, 2000 + n)) if (n + len(kind)) % 3 else list(range(-2, n - 2))
+    # the object's own span: that list, or a NumPy array of the same labels (which has neither .index() nor .get_loc())
+    cspan = np.array(span) if (n + len(kind)) % 2 and n else span
     if kind == 'container':
-        c = monitored(VectorContainer)(span, strict=strict)
+        c = monitored(VectorContainer)(cspan, strict=strict)
         dtypes = {}
     elif kind == 'model-bare':
         # a model class that declares no variables at all: values is an empty stack and size 0 until the first add_variable
         class M0(fsic.BaseModel):
             pass
-        c = monitored(M0)(span, strict=strict)
+        c = monitored(M0)(cspan, strict=strict)
         dtypes = {k: c.__dict__['_' + k].dtype for k in c.index}
     elif kind == 'linker-bare':
         class S0(fsic.BaseModel):
@@ -256,7 +258,7 @@ def make(kind, n, strict):
 
         class L0(fsic.BaseLinker):
             pass
-        c = monitored(L0)({'s': S0(span)})
+        c = monitored(L0)({'s': S0(cspan)})
         if strict:
             c.strict = True
         dtypes = {k: c.__dict__['_' + k].dtype for k in c.index}
@@ -265,7 +267,7 @@ def make(kind, n, strict):
             ENDOGENOUS = ['A']
             EXOGENOUS = ['B']
             NAMES = ENDOGENOUS + EXOGENOUS
-        c = monitored(M)(span, strict=strict)
+        c = monitored(M)(cspan, strict=strict)
         dtypes = {k: c.__dict__['_' + k].dtype for k in c.index}
     else:
         class S(fsic.BaseModel):
@@ -276,7 +278,7 @@ def make(kind, n, strict):
             ENDOGENOUS = ['A']
             EXOGENOUS = ['B']
             NAMES = ENDOGENOUS + EXOGENOUS
-        c = monitored(Lk)({'s': S(span)})
+        c = monitored(Lk)({'s': S(cspan)})
         if strict:
             c.strict = True
         dtypes = {k: c.__dict__['_' + k].dtype for k in c.index}
